@@ -467,6 +467,22 @@ func formatPath(path string, checkShebang bool) error {
 		case err != nil:
 			return err // some other read error
 		}
+		// The shebang line may be longer than the probe above, for example
+		// with many blanks after "#!". Read the rest of the line, so that the
+		// shell is the one that the same bytes on standard input would give,
+		// and so that a longer word is not cut down to a shell name.
+		if err == nil && bytes.HasPrefix(copyBuf[:n], []byte("#!")) {
+			for n < len(copyBuf) && bytes.IndexByte(copyBuf[:n], '\n') < 0 {
+				m, err := f.Read(copyBuf[n:])
+				n += m
+				if err == io.EOF {
+					break
+				}
+				if err != nil {
+					return err
+				}
+			}
+		}
 		shebangLang := fileutil.Shebang(copyBuf[:n])
 		if checkShebang && shebangLang == "" {
 			return nil // not a shell script
